@@ -325,36 +325,53 @@ func insertYields(p *packages.Package, f *ast.File, filename string) bool {
 			Args: []ast.Expr{&ast.BasicLit{Kind: token.STRING, Value: strconv.Quote(site(p, pos))}},
 		}}
 	}
+	var instrumentList func(list []ast.Stmt) []ast.Stmt
 	walkStmt := func(s ast.Stmt) {
 		ast.Inspect(s, func(n ast.Node) bool {
 			switch x := n.(type) {
 			case *ast.FuncLit:
 				walkBlock(x.Body)
 				return false
+			case *ast.SwitchStmt:
+				for _, c := range x.Body.List {
+					cc := c.(*ast.CaseClause)
+					cc.Body = instrumentList(cc.Body)
+				}
+				return false
+			case *ast.TypeSwitchStmt:
+				for _, c := range x.Body.List {
+					cc := c.(*ast.CaseClause)
+					cc.Body = instrumentList(cc.Body)
+				}
+				return false
+			case *ast.SelectStmt:
+				for _, c := range x.Body.List {
+					cc := c.(*ast.CommClause)
+					cc.Body = instrumentList(cc.Body)
+				}
+				return false
 			case *ast.BlockStmt:
 				walkBlock(x)
-				return false
-			case *ast.CaseClause:
-				nb := &ast.BlockStmt{List: x.Body}
-				walkBlock(nb)
-				x.Body = nb.List
 				return false
 			}
 			return true
 		})
 	}
-	walkBlock = func(b *ast.BlockStmt) {
-		if b == nil {
-			return
-		}
+	instrumentList = func(list []ast.Stmt) []ast.Stmt {
 		var out []ast.Stmt
-		for _, s := range b.List {
+		for _, s := range list {
 			walkStmt(s)
 			out = append(out, yieldStmt(s.Pos()), s)
 			note("I4.yield", filename, site(p, s.Pos()))
 			changed = true
 		}
-		b.List = out
+		return out
+	}
+	walkBlock = func(b *ast.BlockStmt) {
+		if b == nil {
+			return
+		}
+		b.List = instrumentList(b.List)
 	}
 	for _, d := range f.Decls {
 		switch x := d.(type) {
